@@ -431,7 +431,15 @@ def _ws_build(p):
     cpk = Packet(Packet=0x2A7)
     cwd = Word(values=[0xB5A])
     cne = Nested(values=[0b110100101011])
+    # a matrix of matrices whose inner and outer sizes differ (3 elements of 2 bits per row, 2 rows), and a
+    # struct holding such a matrix
+    Row = pyrtl.wire_matrix(component_schema=2, size=3)
+    Grid = pyrtl.wire_matrix(component_schema=Row, size=2)
+    gr = Grid(values=[x])
+    gr2 = Grid(values=[pyrtl.concat(h, lo[0:2]), pyrtl.concat(lo, h[0:2])])
     return _outs([
+        ('gr_len', pyrtl.as_wires(gr)), ('gr0', pyrtl.as_wires(gr[0])), ('gr1', pyrtl.as_wires(gr[1])),
+        ('gr01', gr[0][1]), ('gr12', gr[1][2]), ('gr10', gr[1][0]), ('gr2_all', pyrtl.as_wires(gr2)), ('gr2_02', gr2[0][2]),
         ('cpx_r', cpx.r ^ h[0:3]), ('cpx_g', cpx.g ^ h[0:2]), ('cpx_b', cpx.b ^ h[0:1]),
         ('cpk_tag', cpk.tag ^ h[0:2]), ('cpk_high', cpk.body.high ^ h), ('cpk_low', cpk.body.low ^ h),
         ('cwd0', cwd[0] ^ h), ('cwd1', cwd[1] ^ h), ('cwd2', cwd[2] ^ h),
@@ -461,6 +469,8 @@ def _ws_spec(o, p, ins):
                  cpk_tag=0x2 ^ (h % 4), cpk_high=0xA ^ h, cpk_low=0x7 ^ h,
                  cwd0=0xB ^ h, cwd1=0x5 ^ h, cwd2=0xA ^ h,
                  cne0_r=0b110 ^ (h % 8), cne0_g=0b10 ^ (h % 4), cne1_b=1 ^ (h % 2))
+    extra.update(gr_len=x, gr0=x >> 6, gr1=x % 64, gr01=(x >> 8) % 4, gr12=x % 4, gr10=(x >> 4) % 4,
+                 gr2_all=(((h << 2) + (lo % 4)) << 6) + ((lo << 2) + (h % 4)), gr2_02=lo % 4)
     return dict(extra, 
         b1_high=a >> 4, b1_low=a % 16, b1_all=a,
         b2_all=(h << 4) + lo, b2_high=h, b2_low=lo,
@@ -472,4 +482,5 @@ def _ws_spec(o, p, ins):
         pk2_tag=a >> 6, pk2_body_low=(((a << 2) + (a % 4)) % 256) % 16)
 
 
-case('mux.wire_struct', _ws_spec, W=lambda p: 20)(_ws_build)
+case('mux.wire_struct', _ws_spec, W=lambda p: 20,
+     lens=lambda p: dict(gr_len=12, gr0=6, gr1=6, gr01=2, gr12=2, gr2_all=12))(_ws_build)
